@@ -91,6 +91,27 @@ struct World {
     labels: BTreeSet<&'static str>,
     redeliveries: u32,
     redeliveries_nontrivial: u32,
+    /// Open known findings (tolerated when listed in known_findings.txt).
+    open: Open,
+    /// A failure matching an open finding was seen in this case.
+    excluded: bool,
+}
+
+/// K-C39e: processing a KeyBundle message again emits `Event::KeyBundle` again.
+const KEY_E: &str = "K-C39e";
+/// K-C39f: forged auth content (group unknown at the claimed dependencies / auth dependencies
+/// missing from the – global or space-local – auth graph) panics inside p2panda-auth.
+const KEY_F: &str = "K-C39f";
+const AUTH_PANICS: [&str; 3] = [
+    "group already present in states map",
+    "all processed operations exist",
+    "all operations present in map",
+];
+
+#[derive(Clone, Copy, Debug, Default)]
+pub struct Open {
+    pub e: bool,
+    pub f: bool,
 }
 
 fn seed32(seed: u64, salt: u64) -> [u8; 32] {
@@ -192,7 +213,7 @@ enum Outcome {
 }
 
 impl World {
-    fn new(n: usize, seed: u64) -> World {
+    fn new(n: usize, seed: u64, open: Open) -> World {
         let rt = tokio::runtime::Builder::new_current_thread()
             .enable_all()
             .build()
@@ -221,6 +242,8 @@ impl World {
             labels: BTreeSet::new(),
             redeliveries: 0,
             redeliveries_nontrivial: 0,
+            open,
+            excluded: false,
         }
     }
 
@@ -404,13 +427,18 @@ impl World {
                 return Err(format!("second processing of message {i} ({what}) panicked at peer {p}: {m}"));
             }
             Outcome::Ok(events) => {
-                if !events.is_empty() {
+                let only_key_bundle_events =
+                    what == "KeyBundle" && events.iter().all(|e| matches!(e, Event::KeyBundle { .. }));
+                if !events.is_empty() && only_key_bundle_events && self.open.e {
+                    self.labels.insert("known_k_c39e");
+                    self.excluded = true;
+                } else if !events.is_empty() {
                     return Err(format!(
                         "second processing of message {i} ({what}{}) at peer {p} emitted {} further event(s): {:?}",
                         if own { ", own" } else { "" },
                         events.len(),
                         events
-                    ));
+                    ) + if only_key_bundle_events { " [signature K-C39e]" } else { "" });
                 }
             }
             Outcome::Err(_) => {
@@ -923,9 +951,9 @@ fn history_strategy(max_steps: usize) -> impl Strategy<Value = History> {
         .prop_map(|(n, seed, steps, sweep)| History { n, seed, steps, sweep })
 }
 
-fn check_history(case: &History) -> CaseResult {
+fn check_history(case: &History, open: Open) -> CaseResult {
     let n = case.n.clamp(2, 4) as usize;
-    let mut w = World::new(n, case.seed);
+    let mut w = World::new(n, case.seed, open);
     w.exchange_key_bundles()?;
     // The first step always creates a space so that histories are not wasted on empty worlds.
     let mut steps = vec![Step::CreateSpace {
@@ -975,6 +1003,9 @@ fn check_history(case: &History) -> CaseResult {
     }
     if w.spaces.len() > 1 {
         ok = ok.label("multiple_spaces");
+    }
+    if w.excluded {
+        ok = ok.excluded();
     }
     Ok(ok)
 }
@@ -1156,9 +1187,9 @@ fn forge(key: &SigningKey, seq_num: u32, args: Args) -> TestOperation {
     }
 }
 
-fn check_messages(case: &Messages) -> CaseResult {
+fn check_messages(case: &Messages, open: Open) -> CaseResult {
     let n = 3usize;
-    let mut w = World::new(n, case.seed);
+    let mut w = World::new(n, case.seed, open);
     w.exchange_key_bundles()?;
 
     // Base world: peer 0 creates a group with peer 1, a space with peers 1 (and 2) and that group,
@@ -1340,8 +1371,12 @@ fn check_messages(case: &Messages) -> CaseResult {
                 w.persist(receiver, &op);
                 match w.process(receiver, &op) {
                     Outcome::Panic(m) => {
+                        if AUTH_PANICS.contains(&m.as_str()) && open.f {
+                            return Ok(CaseOk::nontrivial(true).label("known_k_c39f").excluded());
+                        }
                         return Err(format!(
-                            "processing forged message #{k} ({what}) panicked at peer {receiver}: {m}"
+                            "processing forged message #{k} ({what}) panicked at peer {receiver}: {m}{}",
+                            if AUTH_PANICS.contains(&m.as_str()) { " [signature K-C39f]" } else { "" }
                         ));
                     }
                     Outcome::Err(e) => {
@@ -1551,9 +1586,14 @@ fn check_messages(case: &Messages) -> CaseResult {
         w.persist(receiver, &op);
         match w.process(receiver, &op) {
             Outcome::Panic(m) => {
+                if AUTH_PANICS.contains(&m.as_str()) && open.f {
+                    // The receiver may be left mid-transaction: nothing more is asserted.
+                    return Ok(CaseOk::nontrivial(true).label("known_k_c39f").excluded());
+                }
                 return Err(format!(
-                    "processing forged message #{k} ({what}, class {class}, signed by {}) panicked at peer {receiver}: {m}",
-                    if author_is_peer { format!("peer {author}") } else { "a stranger".into() }
+                    "processing forged message #{k} ({what}, class {class}, signed by {}) panicked at peer {receiver}: {m}{}",
+                    if author_is_peer { format!("peer {author}") } else { "a stranger".into() },
+                    if AUTH_PANICS.contains(&m.as_str()) { " [signature K-C39f]" } else { "" }
                 ));
             }
             Outcome::Err(_) => {
@@ -1583,6 +1623,14 @@ fn check_messages(case: &Messages) -> CaseResult {
     for c in classes {
         ok = ok.label(c);
     }
+    for l in &w.labels {
+        if l.starts_with("known_") {
+            ok = ok.label(l);
+        }
+    }
+    if w.excluded {
+        ok = ok.excluded();
+    }
     Ok(ok.label_if(any_ok, "some_forged_message_accepted"))
 }
 
@@ -1602,6 +1650,10 @@ pub fn run(mut ctx: Ctx) -> ! {
     );
     ctx.assume("key bundle lifetimes and group secret timestamps use the wall clock inside the code under test; no oracle depends on them");
 
+    let open = Open {
+        e: ctx.is_open(KEY_E),
+        f: ctx.is_open(KEY_F),
+    };
     let max_steps = ctx.pick(15usize, 22usize);
     let histories = Part::new(
         "histories",
@@ -1609,23 +1661,62 @@ pub fn run(mut ctx: Ctx) -> ! {
          members and sub-groups, publish, key bundle, repair, partial causal deliveries, re-deliveries, syncs), final \
          flush and a final sweep re-processing every successfully processed message at every peer. Non-trivial: a \
          re-delivery with at least one other message processed by that peer in between.",
-        200,
+        150,
         6000,
     )
     .min_nontrivial(0.5)
     .shrink_iters(60);
-    ctx.run_prop(histories, || history_strategy(max_steps), check_history);
+    ctx.run_prop(histories, || history_strategy(max_steps), |case| check_history(case, open));
 
     let messages = Part::new(
         "messages",
         "fixed 3-peer world (group, space with sub-group, one application message) + 4..=8 forged messages per case \
          covering every SpacesArgs variant with generated field values, signed by a member or a stranger, processed \
          by a generated receiver inside catch_unwind; accepted ones are processed a second time.",
-        400,
+        300,
         15000,
     )
     .min_nontrivial(0.5)
     .shrink_iters(60);
-    ctx.run_prop(messages, messages_strategy, check_messages);
+    ctx.run_prop(messages, messages_strategy, |case| check_messages(case, open));
+
+    // Probes of the open findings (only when listed): the fixed scenario must still fail with the
+    // finding's signature when it is *not* tolerated.
+    if open.e {
+        let probe = History {
+            n: 2,
+            seed: 3,
+            steps: vec![Step::Redeliver { to: 0, pick: 0 }],
+            sweep: vec![],
+        };
+        match check_history(&probe, Open { e: false, f: true }) {
+            Err(m) if m.contains("[signature K-C39e]") => ctx.known_finding(KEY_E, true, &m),
+            Err(m) => ctx.known_finding(KEY_E, false, &format!("probe failed differently: {m}")),
+            Ok(_) => ctx.known_finding(KEY_E, false, "probe passed"),
+        }
+    }
+    if open.f {
+        let probe = Messages {
+            seed: 4,
+            shape: 0,
+            forged: vec![Forged {
+                author: 0,
+                receiver: 30000,
+                adv: Adv::Auth {
+                    group: IdSel::Unknown(99),
+                    action: 1,
+                    member: MemberSel::Peer(40000),
+                    mistype: false,
+                    access: 1,
+                    deps: DepSel::Heads,
+                },
+            }],
+        };
+        match check_messages(&probe, Open { e: true, f: false }) {
+            Err(m) if m.contains("[signature K-C39f]") => ctx.known_finding(KEY_F, true, &m),
+            Err(m) => ctx.known_finding(KEY_F, false, &format!("probe failed differently: {m}")),
+            Ok(_) => ctx.known_finding(KEY_F, false, "probe passed"),
+        }
+    }
     ctx.finish()
 }
